@@ -60,6 +60,7 @@ package sourcebundle
 
 // The walk that prepares a fetched package directory (ignore rules, link and file-kind checks).
 //@ func packagePrepareWalkFn$1 -> (rerr)
+//@   pure
 //@   sweep
 //@   replay bundlePrepare:
 //@   ghost $lastRemoved String = ""
@@ -110,10 +111,38 @@ package sourcebundle
 //@   ensures C14.find.bracket: $evStart == $evEnd
 //@   invariant loop1 C17.find.deprecation.inv: versionDeprecation == nil && rangeindex < len(availablePackageInfos)
 //@       && (0 <= anyIndex && anyIndex <= rangeindex ==> !sameVersion(selectedVersion, availablePackageInfos[anyIndex].Version))
-//@   ensures-local C17.find.deprecation: err == nil && !mapHas(old(b.resolvedRegistry), pkgVer) ==>
+//@   ensures-local C17.find.deprecation: err == nil && !oldheap(mapHas(b.resolvedRegistry, pkgVer)) ==>
 //@       (versionDeprecation == nil ==> b.packageVersionDeprecations[pkgVer] == nil)
 //@       && (versionDeprecation != nil ==> 0 <= rangeindex && rangeindex < len(availablePackageInfos)
 //@             && sameVersion(selectedVersion, availablePackageInfos[rangeindex].Version) && versionDeprecation == availablePackageInfos[rangeindex].Deprecation
 //@             && (0 <= anyIndex && anyIndex < rangeindex ==> !sameVersion(selectedVersion, availablePackageInfos[anyIndex].Version))
 //@             && b.packageVersionDeprecations[pkgVer] != nil && b.packageVersionDeprecations[pkgVer].Reason == versionDeprecation.Reason && b.packageVersionDeprecations[pkgVer].Link == versionDeprecation.Link)
-//@   ensures-local C17.find.deprecation.kept: err == nil && mapHas(old(b.resolvedRegistry), pkgVer) ==> b.packageVersionDeprecations[pkgVer] == old(b.packageVersionDeprecations)[pkgVer]
+//@   ensures-local C17.find.deprecation.kept: err == nil && oldheap(mapHas(b.resolvedRegistry, pkgVer)) ==> b.packageVersionDeprecations[pkgVer] == oldheap(b.packageVersionDeprecations[pkgVer])
+
+// Fetching one remote package into the bundle directory.
+//@ func (*Builder).ensureRemotePackage -> (localDir, err)
+//@   sweep
+//@   opt propagate-errors
+//@   opt lemmas=bundle
+//@   requires pre.b: b != nil && b.remotePackageDirs != nil && b.remotePackageMeta != nil
+//@   requires pre.open: isAbs(b.targetDir) && Clean(b.targetDir) == b.targetDir
+//@   tolerates os.Lstat#1: true
+//@   ghost $nFetch Int = 0
+//@   ghost $evStart Int = 0
+//@   ghost $evEnd Int = 0
+//@   ghost $evAlready Int = 0
+//@   ghost $lastRemoved String = ""
+//@   ghost $lastRenamedFrom String = ""
+//@   ghost $lastRenamedTo String = ""
+//@   ghost $lastDecoded String = ""
+//@   frame C10.ensure.frame: segUnder(Clean(_p), Clean(b.targetDir))
+//@   at-call invoke github.com/hashicorp/go-slug/sourcebundle.PackageFetcher.FetchSourcePackage C14.ensure.fetch-once: !mapHas(b.remotePackageDirs, pkgAddr)
+//@   at-call invoke github.com/hashicorp/go-slug/sourcebundle.PackageFetcher.FetchSourcePackage C10.ensure.fetch-into-temp: segBelow(Clean(a4), Clean(b.targetDir))
+//@   ensures C14.ensure.cached-after: err == nil ==> mapHas(b.remotePackageDirs, pkgAddr) && localDir == b.remotePackageDirs[pkgAddr]
+//@   ensures C14.ensure.already: old(mapHas(b.remotePackageDirs, pkgAddr)) ==> err == nil && $nFetch == 0 && $evAlready == 1 && $evStart == 0 && localDir == old(b.remotePackageDirs[pkgAddr])
+//@   ensures C14.ensure.bracket: $evStart == $evEnd
+//@   ensures C14.ensure.fetched-once: !old(mapHas(b.remotePackageDirs, pkgAddr)) && err == nil ==> $nFetch == 1 && $evStart == 1
+//@   ensures C10.ensure.no-temp-left: err == nil && !old(mapHas(b.remotePackageDirs, pkgAddr)) ==> ($lastRemoved == workDir || $lastRenamedFrom == workDir) && workDir != ""
+//@   ensures C10,C13.ensure.dirname-is-content-hash: err == nil && !old(mapHas(b.remotePackageDirs, pkgAddr)) ==> localDir == b64UrlOfStd(trimPrefix(hashDirOf(workDir), "h1:")) && safeSeg(localDir)
+//@   ensures C10.ensure.final-dir: err == nil && $lastRenamedFrom == workDir && !old(mapHas(b.remotePackageDirs, pkgAddr)) ==> $lastRenamedTo == Join(b.targetDir, localDir)
+//@   ensures-local C08.ensure.meta-stored: err == nil && !old(mapHas(b.remotePackageDirs, pkgAddr)) && response.PackageMeta != nil ==> b.remotePackageMeta[pkgAddr] == response.PackageMeta
